@@ -139,6 +139,9 @@ func setup(c *Case, r *pbt.R, shared *scen.Env) *session {
 	p.Net.Blocked[s.snd.Name] = true
 	mark := len(p.Net.Events())
 	for i, n := range c.Sizes {
+		if n >= 7900 {
+			r.Class("payload-near-receive-buffer")
+		}
 		pl := payload(i, n)
 		if _, err := s.snd.Conn.Write(pl); err != nil {
 			p.Close()
@@ -596,7 +599,11 @@ func genSizes(t *rapid.T) []int {
 	k := rapid.IntRange(1, 4).Draw(t, "k")
 	out := make([]int, k)
 	for i := range out {
-		switch rapid.IntRange(0, 5).Draw(t, "szk") {
+		switch rapid.IntRange(0, 6).Draw(t, "szk") {
+		case 6:
+			// just under the receive buffer (8192 bytes for the whole datagram): the largest record overhead of any
+			// layout here is 13 header + 8 connection ID + 16 IV + 32 MAC + 16 CBC padding + 1 inner type + 30 padding
+			out[i] = rapid.IntRange(7900, 8192-116).Draw(t, "huge")
 		case 0:
 			out[i] = rapid.SampledFrom([]int{0, 1, 15, 16, 17, 31, 32, 33}).Draw(t, "edge")
 		case 1:
